@@ -966,6 +966,9 @@ where
         }
     }
 
+    #[cfg(adlt_verif)]
+    verif_gate::before_final_publication();
+
     // todo check for rule #2 and do the final update
     check_regular_refresh(
         last_msg_index,
@@ -1042,6 +1045,55 @@ where
     }
     sorted_lcs.sort_by_cached_key(|lc| (sort_key(lc, lcr), lc.id));
     sorted_lcs
+}
+
+/// Verification hook (only compiled with `--cfg adlt_verif`): lets a harness hold the lifecycle stage at the point
+/// where all messages have been forwarded but the final publication of the lifecycle table is still to come.
+#[cfg(adlt_verif)]
+pub mod verif_gate {
+    use std::sync::{Condvar, Mutex};
+    struct State {
+        armed: bool,
+        reached: bool,
+    }
+    static STATE: Mutex<State> = Mutex::new(State {
+        armed: false,
+        reached: false,
+    });
+    static CV: Condvar = Condvar::new();
+
+    /// the next stage that arrives at the gate waits there until `release`
+    pub fn arm() {
+        let mut st = STATE.lock().unwrap();
+        st.armed = true;
+        st.reached = false;
+    }
+    /// let a waiting stage continue (and disarm)
+    pub fn release() {
+        let mut st = STATE.lock().unwrap();
+        st.armed = false;
+        CV.notify_all();
+    }
+    /// wait until a stage waits at the gate. Returns false on timeout
+    pub fn wait_reached(timeout_ms: u64) -> bool {
+        let st = STATE.lock().unwrap();
+        let (st, _) = CV
+            .wait_timeout_while(st, std::time::Duration::from_millis(timeout_ms), |s| {
+                !s.reached
+            })
+            .unwrap();
+        st.reached
+    }
+    pub(super) fn before_final_publication() {
+        let mut st = STATE.lock().unwrap();
+        if st.armed {
+            st.reached = true;
+            CV.notify_all();
+            while st.armed {
+                st = CV.wait(st).unwrap();
+            }
+        }
+    }
 }
 
 #[cfg(test)]
